@@ -721,7 +721,8 @@ def source_pools() -> dict:
                      "20/02/2020", "20200220", "Thu, 20 Feb 2020", "2022-01-02 21:22:23 GMT", "2022/1/02", "20 Feb 2020",
                      "2022-01-02 21:22:23.123456", "2022-01-02 09:22:23 PM", "2022-01-02T21:22:23.5", "2020-02-20 10:11",
                      "Jan 02 21:22:23 2022", "2020-02-30", "2022-01-02 21:22:23 UTC", "2022-01-02T21:22:23TZD",
-                     "2022-01-02 21:22:23-05:00"],
+                     "2022-01-02 21:22:23-05:00", "2020-02-20 00:00:05", "2020-02-20 00:00:00.000001", "2020-02-20T00:00:07",
+                     "2020-02-20 00:01", "Thu, 20 Feb 2020 00:00:09"],
         "str_time": ["11:12:13", "8:9:10", "8:30", "00:00", "11:12:13.5", "25:00", "11:12:13+08:00", "1:2:3:4"],
         "str_dur": ["P1DT00H00M00S", "1 day, 0:00:05", "1:30:00", "PT5M", "3 10:00:00.5", "-P2D", "P1.5D", "0:0:5",
                     "10 0:00", "-10.1", "0", "5.123456"],
@@ -736,7 +737,7 @@ def source_pools() -> dict:
         "bytes": [b"", b"std", b"123", b"-0.3", b"10.1", b"true", b"null", b"2020-02-20", b"2020-02-20 10:11:12",
                   b"11:12:13", b"P1DT00H00M00S", b"(1,2)", b"a, b", b'{"a": 1}', b"{1: 2}", str(UID).encode(),
                   UID.bytes, b"\xff1", "测试1".encode("gbk"), b"\xe6\xb5\x8b", b"\xe6\xb5", b"1\xc0\xaf2", b"\xed\xa0\x80",
-                  b"-10.1", SubBytes(b"12"), b"B", b"a", b"1+3j", b"0"],
+                  b"-10.1", SubBytes(b"12"), b"B", b"a", b"1+3j", b"0", b"2020-02-20 00:00:05"],
         "bytearray": [bytearray(b""), bytearray(b"123"), bytearray(b"true"), bytearray(b"\xff1"), bytearray(b"a,b"),
                       bytearray(UID.bytes), bytearray(b"2020-02-20"), SubByteArray(b"7")],
         "memoryview": [memoryview(b"123"), memoryview(b""), memoryview(b"\xff"), memoryview(b"true")],
@@ -836,9 +837,11 @@ def random_value(rng: random.Random, depth=0):
             w = rng.choice(WORDS)
             return "".join(ch.upper() if rng.random() < 0.4 else ch for ch in w)
         if k < 0.45:
-            d = datetime(rng.randrange(1971, 2037), rng.randrange(1, 13), rng.randrange(1, 29),
-                         rng.choice([0, rng.randrange(0, 24)]), rng.choice([0, rng.randrange(0, 60)]),
-                         rng.choice([0, rng.randrange(0, 60)]), rng.choice([0, 0, rng.randrange(0, 10 ** 6)]))
+            # time of day: often midnight, often only one small component set (the boundary of "timed")
+            tod = rng.choice([(0, 0, 0, 0), (0, 0, 0, 0), (0, 0, rng.randrange(1, 60), 0), (0, rng.randrange(1, 60), 0, 0),
+                              (0, 0, 0, rng.randrange(1, 10 ** 6)), (rng.randrange(0, 24), rng.randrange(0, 60), rng.randrange(0, 60), 0),
+                              (rng.randrange(0, 24), rng.randrange(0, 60), rng.randrange(0, 60), rng.randrange(0, 10 ** 6))])
+            d = datetime(rng.randrange(1971, 2037), rng.randrange(1, 13), rng.randrange(1, 29), *tod)
             return d.strftime(rng.choice(FMTS))
         if k < 0.65:
             s = rng.choice(["%d", "%d.%d", "-%d.%d", "%de%d", " %d", "%d.%d00", "0%d", "%d_%d"])
@@ -1094,12 +1097,12 @@ def is_timed_string(s: str) -> bool:
 
 class C12(Check):
     prop = "C12"
-    props_modules = ["Utv.Props.C12"]
+    props_modules = ["Utv.Props.C12", "Utv.Util.ConvJson"]
     driver = "C12"
     impl = "harness.c12:impl"
     uses_extract = True
     case_timeout = 12.0
-    budget = {"quick": 2600, "thorough": 36000}
+    budget = {"quick": 2600, "thorough": 120000}
     search_budget = {"quick": 2500, "thorough": 12000}
     rule = ("(source value, target class) pairs, each run under the four no_explicit_cast/no_data_loss combinations on the real "
             "type_transform and on the Lean model: 40 source kinds (pools of boundary values per kind: numbers, numeric/word/date/"
@@ -1345,6 +1348,7 @@ class C12(Check):
         for fn, w in want_regs.items():
             if regs.get(fn) != w:
                 broken.append(f"registration of {fn} is {regs.get(fn)}, the model's `resolve` assumes {w}")
+        broken += audit_prim_laws()
         order = [r[0] for r in tabs.get("registrations", [])]
         if "to_integer" in order and "to_bool" in order and not (order.index("to_integer") < order.index("to_bool") < order.index("to_enum")):
             broken.append("registration order int < bool < enum changed (the model's `resolve` depends on it)")
@@ -1354,6 +1358,41 @@ class C12(Check):
         ev["coverage"]["exhaustive"] = False
         if tier == "thorough":
             ev["coverage"]["exhaustive_part"] = "every pool value x every target x 4 flag combinations"
+
+
+def audit_prim_laws() -> list:
+    """PrimLaws (hypotheses of the theorems) checked against the running interpreter on this run's texts"""
+    bad = []
+    rng = random.Random(12)
+    pools = source_pools()
+    raws = [bytes(b) for k in ("bytes", "bytearray", "memoryview") for b in pools[k]]
+    for _ in range(400):
+        raws.append(bytes(rng.choice([rng.randrange(256), rng.randrange(128), 0xC3, 0xE6, 0xF0, 0x80, 0xBF]) for _ in range(rng.randrange(0, 7))))
+    for raw in raws:
+        try:
+            s = raw.decode(errors="strict")
+        except UnicodeDecodeError:
+            continue
+        if raw.decode(errors="ignore") != s:
+            bad.append(f"PrimLaws.decode_strict fails for {raw!r}")
+    texts = [t for k, vals in pools.items() if k.startswith("str_") for t in vals]
+    for _ in range(300):
+        body = "".join(rng.choice('ab"\\/\t\n :,{}[]01') for _ in range(rng.randrange(0, 10)))
+        texts += ['{"a": "%s"}' % body, "[%s]" % body, body]
+    for t in texts:
+        def load(strict):
+            try:
+                return ("ok", json.loads(t, strict=strict))
+            except json.JSONDecodeError:
+                return ("perr",)
+            except RecursionError:
+                return ("rec",)
+        a, b = load(True), load(False)
+        if a != b and not (a == ("perr",) and b[0] == "ok"):
+            bad.append(f"PrimLaws.json_strict fails for {t!r}")
+    if raws and b"".decode() != "":
+        bad.append("decode of the empty byte string is not the empty text")
+    return bad[:5]
 
 
 def _contains_bytes(j) -> bool:
